@@ -107,8 +107,14 @@ func (c *Chunk) Available(n int) bool {
 // drained. The return value n is the number of bytes read and any errors that
 // may have occurred.
 func (c *Chunk) Read(b []byte) (int, error) {
-	if c.Empty() && c.buf != nil {
-		if c.Reset(); len(b) == 0 {
+	if c.Empty() {
+		// NOTE: A Chunk that was never written to (nil buffer) is drained like
+		//       any other empty Chunk: readers that loop until an error (io.ReadFull,
+		//       ReadFrom) must see io.EOF instead of (0, nil) forever.
+		if c.buf != nil {
+			c.Reset()
+		}
+		if len(b) == 0 {
 			return 0, nil
 		}
 		return 0, io.EOF
